@@ -1525,3 +1525,16 @@ package rockredis
 //@   opt only=POST
 //@   ensures ghost(collexpired, db) == 1 || ghost(collabsent, db) == 1 ==> result1 != nil
 //@   modifies ghost(collexpired, db), ghost(collabsent, db), ghost(curexists, db), ghost(curhead, db), ghost(curlen, db), ghost(curtk, db)
+
+// data ranges of a table (C12): each range ends with the table end of ITS OWN key type - the element range with the
+// requested type, the extra score-index range of sorted sets with the score type (partial contract: these assertions)
+//@ property C12
+//@ func getTableDataRange(dt byte, table []byte, start []byte, end []byte) ([]engine.CRange, error)
+//@   opt only=ASSERT
+//@   callassert encodeFullScanMinKey arg0 == dt && sameSlice(arg1, table) && (sameSlice(arg2, start) || sameSlice(arg2, end)) && arg3 == nil
+//@   callassert zEncodeStartKey sameSlice(arg0, table) && sameSlice(arg1, start) && dt == ZSetType
+//@   callassert zEncodeStopKey sameSlice(arg0, table) && sameSlice(arg1, end) && dt == ZSetType && end != nil
+//@   callassert encodeDataTableEnd end == nil && (arg0 == dt || (dt == ZSetType && arg0 == ZScoreType)) && bytesEq(arg1, table)
+//@   callassert Debugf len(rgs) >= 1 && (end == nil ==> rgs[0].Limit[0] == dt) && (dt == ZSetType ==> len(rgs) == 2 && (end == nil ==> rgs[1].Limit[0] == ZScoreType))
+//@   requires len(table) < 65536
+//@   modifies *
